@@ -244,7 +244,7 @@ func (p *purity) root(fn *ssa.Function, v ssa.Value, depth int) (int, int) {
 	if depth == 0 {
 		p.seen = map[ssa.Value]bool{}
 	}
-	if depth > 25 {
+	if depth > 40 {
 		return rootGlobal, 0
 	}
 	if _, isPhi := v.(*ssa.Phi); isPhi {
@@ -327,6 +327,45 @@ func (p *purity) root(fn *ssa.Function, v ssa.Value, depth int) (int, int) {
 		if p.callFresh(x, 0) {
 			return rootLocal, 0
 		}
+		// a module function whose result is one of its own arguments (or fresh): the root of that argument here
+		if g := x.Call.StaticCallee(); g != nil && !x.Call.IsInvoke() && p.inModule(g) && len(g.Blocks) > 0 && depth < 12 {
+			saved := p.seen
+			kind, idx, n, okAll := rootLocal, 0, 0, true
+			for _, ret := range returnsOf(g) {
+				if len(ret.Results) == 0 {
+					okAll = false
+					break
+				}
+				rv := ret.Results[0]
+				if isNilConst(rv) {
+					continue
+				}
+				n++
+				k2, i2 := p.root(g, rv, depth+13)
+				switch k2 {
+				case rootLocal:
+				case rootParam:
+					if i2 < len(x.Call.Args) {
+						k3, i3 := p.root(fn, x.Call.Args[i2], depth+1)
+						kind, idx = joinRoot(kind, idx, k3, i3)
+					} else {
+						okAll = false
+					}
+				default:
+					okAll = false
+				}
+			}
+			p.seen = saved
+			if okAll && n > 0 {
+				return kind, idx
+			}
+		}
+		// big-number methods return their receiver: z.Exp(x, e, m) is z
+		if g := x.Call.StaticCallee(); g != nil && !x.Call.IsInvoke() && g.Signature.Recv() != nil && len(x.Call.Args) > 0 && !p.inModule(g) {
+			if idx, known := extEffects[g.String()]; known && len(idx) > 0 && idx[0] == 0 && types.Identical(g.Signature.Recv().Type(), x.Type()) {
+				return p.root(fn, x.Call.Args[0], depth+1)
+			}
+		}
 		if !pointerLike(x.Type()) {
 			return rootLocal, 0
 		}
@@ -398,6 +437,27 @@ func (p *purity) callFresh(call *ssa.Call, idx int) bool {
 	}
 	p.fresh[key] = false
 	v := calleeReturnsFresh(call, idx, 0)
+	if !v {
+		// the engine's own notion: every non-nil return at that position is rooted in an object made by the callee
+		saved := p.seen
+		n, all := 0, true
+		for _, ret := range returnsOf(f) {
+			if idx >= len(ret.Results) {
+				all = false
+				break
+			}
+			rv := ret.Results[idx]
+			if isNilConst(rv) {
+				continue
+			}
+			n++
+			if k, _ := p.root(f, rv, 1); k != rootLocal {
+				all = false
+			}
+		}
+		p.seen = saved
+		v = all && n > 0
+	}
 	p.fresh[key] = v
 	return v
 }
